@@ -87,17 +87,20 @@ def run_case(case):
     T = r.T
     cols_exact = [c for c in r.states + r.choices if r.kind[c] == "DiscreteGrid"]
 
-    def run(idx, key_order=None):
+    def run(idx, key_order=None, targets=None):
         nonlocal traces
         keys = key_order or list(base)
         init = {s: jnp.asarray(base[s][list(idx)]) for s in keys}
-        fr = sim(params, initial_states=init, vf_arr_list=Vj, seed=11)
+        if targets:
+            fr = sim(params, initial_states=init, vf_arr_list=Vj, seed=11, additional_targets=list(targets))
+        else:
+            fr = sim(params, initial_states=init, vf_arr_list=Vj, seed=11)
         traces += 1
         return fr
 
-    def paths(fr, n):
+    def paths(fr, n, extra=()):
         """array (n agents, T periods, columns)"""
-        cols = ["value", *r.choices, *r.states]
+        cols = ["value", *r.choices, *r.states, *extra]
         a = fr[cols].to_numpy(dtype=np.float64).reshape(T, n, len(cols))
         return np.transpose(a, (1, 0, 2)), cols
 
@@ -108,11 +111,12 @@ def run_case(case):
         periods = 1 if stochastic else T
         exact_idx = [cols.index(c) for c in cols_exact]
 
-        def compare(idx, fr, label):
+        def compare(idx, fr, label, ref=None, extra=()):
             nonlocal cnt
-            P, _ = paths(fr, len(idx))
+            P, cols = paths(fr, len(idx), extra)
+            ref = P0 if ref is None else ref
             for j, a in enumerate(idx):
-                x, y = P[j, :periods], P0[a, :periods]
+                x, y = P[j, :periods], ref[a, :periods]
                 cnt += periods
                 ok = e1.refmodel.close(x, y, 1e-12)  # infinities / NaN patterns must agree exactly
                 ok[:, exact_idx] &= x[:, exact_idx] == y[:, exact_idx]
@@ -151,6 +155,19 @@ def run_case(case):
             orders = list(itertools.permutations(names)) if len(names) <= 3 else [tuple(names[i:] + names[:i]) for i in range(len(names))] + [tuple(reversed(names))]
             for o in orders[1:]:
                 if not compare((0, 1, 2, 3), run(range(4), key_order=list(o)), f"key order {o}"):
+                    done = True
+                    break
+        if not done:
+            # the same with every additional target requested: the target columns of an agent's rows are functions of
+            # that agent's own rows (subsets of every size 1..3, one permutation, one duplication, a batch of 7)
+            from mc.checks import c13
+
+            alphabet = c13.target_alphabet(r)
+            P0t, _ = paths(run(range(4), targets=alphabet), 4, alphabet)
+            batches = [(f"subset {sub}", sub) for sub in ((0,), (2,), (1, 3), (0, 2), (0, 2, 3), (1, 2, 3))]
+            batches += [("permutation (2, 0, 3, 1)", (2, 0, 3, 1)), ("duplication of agent 1", (0, 1, 2, 3, 1)), ("batch of 7", (3, 2, 1, 0, 0, 1, 2))]
+            for label, idx in batches:
+                if not compare(idx, run(idx, targets=alphabet), f"additional targets {alphabet}, {label}", ref=P0t, extra=alphabet):
                     break
     except Exception as e:
         viols.append(violation("runs", "simulate", "EXC:" + type(e).__name__, str(e)[:300]))
